@@ -4,7 +4,9 @@ S=$1; P=$2; T=${3:-quick}
 cd /verif
 [ -z "$(git -C /repo status --porcelain)" ] || { echo "repo not clean"; exit 2; }
 git -C /repo apply /verif/seeded/$S/patch.diff || { echo "SEEDRUN $S: patch does not apply"; exit 2; }
+cp evidence/$P.json /tmp/evidence-$P.json.saved 2>/dev/null
 out=$(./check $P $T 2>&1); rc=$?
+[ -f /tmp/evidence-$P.json.saved ] && mv /tmp/evidence-$P.json.saved evidence/$P.json
 git -C /repo checkout -- . ; git -C /repo status --porcelain
 echo "$out" | grep -E "^VIOLATION" | head -3
 echo "SEEDRUN $S on $P ($T): rc=$rc $(echo "$out" | grep -c '^VIOLATION') violation line(s)"
